@@ -33,6 +33,8 @@ class Gen11(HistGen):
             {"dt": ["datetime", "2010-05-06T07:08:09+00:00"]},
             {"dt": ["time", "01:02:03.000004"]},
             {"q": [self.unique_int(), "km/s"]},
+            {"q": [{"list": [1, 2, 3]}, "pixel"]},
+            {"list": [{"list": [{"f": 1.5}, {"f": 2.5}]}, {"s": "z"}]},
             {"empty": r.randint(1, 99)}, {"empty": r.randint(1, 99)}])
 
 
